@@ -392,6 +392,30 @@ func wireTraceOnceRule(p *Prog, r *Report) {
 			bad += " the channel is closed at " + p.InstrPos(in) + " on every call;"
 		})
 	}
+	// the trace itself is recorded in the same once-guarded step (first trace wins, no write after the close)
+	for _, f := range withClosures(fn) {
+		eachInstr(f, func(in ssa.Instruction) {
+			st, ok := in.(*ssa.Store)
+			if !ok {
+				return
+			}
+			fa, ok := st.Addr.(*ssa.FieldAddr)
+			if !ok || fieldName(fa.X.Type(), fa.Field) != "trace" {
+				return
+			}
+			closes := false
+			eachInstr(f, func(i2 ssa.Instruction) {
+				if c2 := callCommon(i2); c2 != nil {
+					if b, isB := c2.Value.(*ssa.Builtin); isB && b.Name() == "close" {
+						closes = true
+					}
+				}
+			})
+			if !closes {
+				bad += " the trace is assigned at " + p.InstrPos(in) + " outside the once-guarded step that closes the channel (a later completion overwrites the first trace after waiters were released);"
+			}
+		})
+	}
 	r.Check(n >= 1 && bad == "", "wire-trace.once", "R-ONCE", p.Pos(fn.Pos()), "the availability channel is closed under a sync.Once",
 		"setWireTrace closes its channel unconditionally:"+bad+" the HTTP client completes two round trips with one context when it follows a redirect (307 from the server under test), the second completion panics with `close of closed channel` and the reference client dies instead of reporting")
 }
